@@ -263,8 +263,13 @@ impl RdbEngine {
             for key in keys {
                 if let GetResult::Found(value) = storage.get(db, &key)? {
                     // Check for expiration
+                    // (checked: a time to live can be too long for the wall clock, see get_for_snapshot)
                     let expire_time = storage.ttl(db, &key)?
-                        .map(|ttl| SystemTime::now() + ttl);
+                        .map(|ttl| {
+                            let now = SystemTime::now();
+                            now.checked_add(ttl)
+                                .unwrap_or_else(|| now + std::time::Duration::from_secs(100 * 365 * 24 * 60 * 60))
+                        });
                     
                     // Write expiration if present
                     if let Some(expire) = expire_time {
